@@ -353,7 +353,8 @@ GetSmootherActsOK(hasE, ne, smear, wide, got) ==
            object in place; reading .data in K__Result.__sub__ merges the operands' data_list)
    files : abstract .npz files (Result.save), loaded back by LoadNpz
    start : which initial store the behaviour began with
-   hist  : the operations applied so far, [op, i, j, s, g, out]; out = index of the store entry (or file) the result
+   hist  : the operations applied so far, [op, i, j, s, g, out, v] (v: the array of MulArray, s its axis; <<>> otherwise);
+           out = index of the store entry (or file) the result
            went to, 0 = the result is only compared (it has to equal object i) and dropped: `x + Void`, `Void + x`,
            `x - Void` may or may not return x itself, the specification leaves that open *)
 CONSTANTS InitStores,      \* sequence of initial stores
